@@ -18,14 +18,15 @@ vars == <<tid, i, loaded>>
 Ev == Traces[tid][i]
 After(e) == IF e.op = "load" THEN loaded \cup {e.x} ELSE loaded \ {e.x}
 FirstFailing(e, L) ==
-  IF ~("obs" \in DOMAIN e) THEN "ok"
+  IF "raised" \in DOMAIN e /\ e.raised THEN "C19.operation-raised"      \* loading / unloading a key is total (Keyring.tla: Load, Reload, Unload, UnloadAbsent)
+  ELSE IF ~("obs" \in DOMAIN e) THEN "ok"
   ELSE LET o == e.obs IN
     IF ~FprsOK(L, SetOf(o.fprs)) THEN "C19.fingerprints"
     ELSE IF \E k \in 1..Len(Idents) : ~SelOK(L, Idents[k], o.sel[k]) THEN "C19.select"
     ELSE IF \E k \in 1..Len(Idents) : ~HasOK(L, Idents[k], o.has[k]) THEN "C19.contains"
     ELSE IF ~LenOK(L, o.len) THEN "C19.len"
     ELSE "ok"
-BadIdent(e, L) == LET o == e.obs IN
+BadIdent(e, L) == IF ~("obs" \in DOMAIN e) THEN "-" ELSE LET o == e.obs IN
   IF \E k \in 1..Len(Idents) : ~SelOK(L, Idents[k], o.sel[k])
   THEN Idents[CHOOSE k \in 1..Len(Idents) : ~SelOK(L, Idents[k], o.sel[k])] ELSE "-"
 NextTrace == tid' = tid + 1 /\ i' = 1 /\ loaded' = {}
